@@ -255,6 +255,16 @@ func jlStream(seed uint64, tier string, outDir string, props map[string]bool, fo
 		dc := mkdir("c")
 		os.WriteFile(filepath.Join(dc, "row.yml"), []byte("columns:\n  - name: \"zzz\"\n    input: \"numeric\"\n    output: \"hidden\"\n  - name: \""+cols[0].name+"\"\n    input: \"binary(int8)\"\n    output: \"binary(int8)\"\n"), 0o644)
 		rc := runJl(bin, dc, []string{"-t", inline}, stdin)
+		// (c') an empty or comment-only row.yml is no definition at all: the inline template alone decides
+		if i%4 == 0 {
+			de := mkdir("e")
+			os.WriteFile(filepath.Join(de, "row.yml"), []byte([]string{"", "# columns come from -t\n", "\n\n", "---\n"}[r.intn(4)]), 0o644)
+			re := runJl(bin, de, []string{"-t", inline}, stdin)
+			rep.OracleChecks["C19"]++
+			if re.exit != rb.exit || !bytes.Equal(re.stdout, rb.stdout) {
+				violate(fmt.Sprintf("jl: with an empty row.yml present the inline template gives exit %d, %q; without the file, exit %d, %q", re.exit, re.stdout, rb.exit, rb.stdout), ctx)
+			}
+		}
 		rep.OracleChecks["C19"] += 3
 		if ra.exit != 0 || rb.exit != 0 || rc.exit != 0 {
 			violate(fmt.Sprintf("jl: exit status %d / %d / %d for well-formed templates and per-line data errors only", ra.exit, rb.exit, rc.exit), ctx)
@@ -404,6 +414,15 @@ func jlDescriptorSweep(bin string, mkdir func(string) string, rep *streamReport,
 				to2 := jsonline.NewTemplate().With("c", f, typeSample[tn])
 				var lib bytes.Buffer
 				_ = jsonline.NewStreamer(ti2.GetImporter(strings.NewReader(stdin)), to2.GetExporter(&lib)).WithProcessor(jsonline.NoFailureProcessor).Stream()
+				// the same column given as row.yml
+				dy := mkdir("sy")
+				os.WriteFile(filepath.Join(dy, "row.yml"), []byte(fmt.Sprintf("columns:\n  - name: \"c\"\n    input: %q\n    output: %q\n", other, desc)), 0o644)
+				runY := runJl(bin, dy, nil, stdin)
+				rep.OracleChecks["C19"]++
+				if runY.exit != run.exit || !bytes.Equal(runY.stdout, run.stdout) {
+					violate(fmt.Sprintf("jl: row.yml with input %q output %q gives exit %d, %q; the inline template %s gives exit %d, %q", other, desc, runY.exit, runY.stdout, inline, run.exit, run.stdout),
+						map[string]interface{}{"stream": "jl", "inline": inline, "stdin": stdin})
+				}
 				rep.OracleChecks["C19"]++
 				rep.Cases++
 				if run.exit != 0 || !bytes.Equal(run.stdout, lib.Bytes()) {
